@@ -66,7 +66,10 @@ FINALS = {
     "allowed": ("collections", "OrderedDict"),
     "added": ("collections", "Counter"),
     "forbidden": ("vp_sink", "hit"),
-    "stdlib-not-listed-2": ("string", "Formatter"),   # no byte of either name is an opcode that imports
+    "stdlib-not-listed-2": ("string", "Formatter"),
+    # another member of a module the caller's additions introduced (pickle.loads added -> pickle.Unpickler is not)
+    "sibling-of-added": ("pickle", "Unpickler"),
+    "sibling-of-added-2": ("_pickle", "load"),   # no byte of either name is an opcode that imports
     # protocol >= 4 resolves a dotted name as an attribute path: these start at allow-listed names
     "dotted-allowed-prefix": ("collections", "OrderedDict.fromkeys"),
     "dotted-globals": ("argparse", "Namespace.__init__.__globals__"),
